@@ -5,26 +5,30 @@ args = [a for a in sys.argv[1:] if not a.startswith('--')]
 tier = 'thorough' if '--thorough' in sys.argv else 'quick'
 sid, checks = args[0], args[1:]
 patch = '/verif/seeded/%s/patch.diff' % sid
-st = subprocess.run('git -C /repo status --short', shell=True, capture_output=True, text=True).stdout.strip()
+# SEED_REPO: a scratch worktree of /repo to patch instead of /repo itself (the checks then import stone from it)
+REPO = os.environ.get('SEED_REPO', '/repo')
+st = subprocess.run('git -C {REPO} status --short'.replace('{REPO}', REPO), shell=True, capture_output=True, text=True).stdout.strip()
 if st:
     print('refusing: /repo is dirty:\n' + st); sys.exit(2)
-r = subprocess.run('git -C /repo apply %s' % patch, shell=True, capture_output=True, text=True)
+r = subprocess.run('git -C {REPO} apply %s'.replace('{REPO}', REPO) % patch, shell=True, capture_output=True, text=True)
 if r.returncode != 0:
-    r = subprocess.run('git -C /repo apply -3 %s' % patch, shell=True, capture_output=True, text=True)
+    r = subprocess.run('git -C {REPO} apply -3 %s'.replace('{REPO}', REPO) % patch, shell=True, capture_output=True, text=True)
     if r.returncode != 0:
-        subprocess.run('git -C /repo reset -q ; git -C /repo checkout -- .', shell=True)
+        subprocess.run('git -C {REPO} reset -q ; git -C {REPO} checkout -- .'.replace('{REPO}', REPO), shell=True)
         print('PATCH DOES NOT APPLY to current /repo HEAD: ' + r.stderr[-300:]); sys.exit(3)
-    subprocess.run('git -C /repo reset -q', shell=True)
+    subprocess.run('git -C {REPO} reset -q'.replace('{REPO}', REPO), shell=True)
 results = {}
 try:
     for c in checks:
         t = time.time()
-        env = dict(os.environ, VERIF_EVIDENCE_DIR='/tmp/wt/seeded-evidence')
+        env = dict(os.environ, VERIF_EVIDENCE_DIR=os.environ.get('SEED_EVIDENCE', '/tmp/wt/seeded-evidence'))
+        if REPO != '/repo':
+            env.update(PYTHONPATH=REPO, VERIF_REPO=REPO)
         p = subprocess.run(['/verif/check', c, '--tier', tier], capture_output=True, text=True, cwd='/verif', env=env)
         viol = [l for l in p.stdout.split('\n') if l.startswith('VIOLATION') or l.startswith('  identity')]
         results[c] = {'exit': p.returncode, 'violations': viol[:12], 'wall': round(time.time() - t, 1)}
         if p.returncode not in (0, 1):
             results[c]['stderr'] = p.stderr[-1500:]
 finally:
-    subprocess.run('git -C /repo checkout -- . && git -C /repo clean -fdq stone', shell=True)
+    subprocess.run('git -C {REPO} checkout -- . && git -C {REPO} clean -fdq stone'.replace('{REPO}', REPO), shell=True)
 print(json.dumps({sid: results}, indent=1))
